@@ -92,25 +92,42 @@ func runC01(r *Report) {
 				continue
 			}
 			usesCh := func(v ssa.Value) bool { return v == ch || Strip(v) == ch }
-			hit := func(in ssa.Instruction) bool {
-				switch x := in.(type) {
-				case *ssa.UnOp:
-					return x.Op == token.ARROW && usesCh(x.X)
-				case *ssa.Go:
-					for _, a := range x.Call.Args {
-						if usesCh(a) {
-							return goroutineReceives(x, a)
+			var hitFor func(usesCh func(ssa.Value) bool, depth int) func(ssa.Instruction) bool
+			hit := func(in ssa.Instruction) bool { return hitFor(usesCh, 1)(in) }
+			hitFor = func(usesCh func(ssa.Value) bool, depth int) func(ssa.Instruction) bool {
+				return func(in ssa.Instruction) bool {
+					switch x := in.(type) {
+					case *ssa.Call:
+						// the abandon path may be an unexported pipe method that is handed the channel
+						h := x.Call.StaticCallee()
+						if depth == 0 || h == nil || h.Blocks == nil || isExportedName(h.Name()) || !strings.HasPrefix(FuncName(h), P) {
+							return false
 						}
-					}
-					if mc, ok := x.Call.Value.(*ssa.MakeClosure); ok {
-						for _, b := range mc.Bindings {
-							if usesCh(b) {
-								return true
+						for k, a := range x.Call.Args {
+							if usesCh(a) && k < len(h.Params) {
+								prm := h.Params[k]
+								return MustPassOrEdge(Site{h, h.Blocks[0], -1, nil}, hitFor(func(v ssa.Value) bool { return v == ssa.Value(prm) || Strip(v) == ssa.Value(prm) }, depth-1), nil)
+							}
+						}
+						return false
+					case *ssa.UnOp:
+						return x.Op == token.ARROW && usesCh(x.X)
+					case *ssa.Go:
+						for _, a := range x.Call.Args {
+							if usesCh(a) {
+								return goroutineReceives(x, a)
+							}
+						}
+						if mc, ok := x.Call.Value.(*ssa.MakeClosure); ok {
+							for _, b := range mc.Bindings {
+								if usesCh(b) {
+									return true
+								}
 							}
 						}
 					}
+					return false
 				}
-				return false
 			}
 			edge := func(from *ssa.BasicBlock, succ int) bool {
 				iff, ok := from.Instrs[len(from.Instrs)-1].(*ssa.If)
@@ -247,7 +264,47 @@ func runC01(r *Report) {
 					}
 				}
 			}
-			gos := Sites(fn, func(in ssa.Instruction) bool { _, ok := in.(*ssa.Go); return ok })
+			// the abandon event: the goroutine that takes over the buffer is started here, or by an
+			// unexported pipe method that is handed the buffer and returns another one
+			isAbandon := func(in ssa.Instruction) bool {
+				if _, ok := in.(*ssa.Go); ok {
+					return true
+				}
+				c, ok := in.(*ssa.Call)
+				if !ok {
+					return false
+				}
+				h := c.Call.StaticCallee()
+				if h == nil || h.Blocks == nil || isExportedName(h.Name()) || !strings.HasPrefix(FuncName(h), P) {
+					return false
+				}
+				var prm *ssa.Parameter
+				for k, a := range c.Call.Args {
+					same := buf != nil && (a == buf || Strip(a) == Strip(buf))
+					if la, isl := a.(*ssa.UnOp); isl && la.Op == token.MUL && buf != nil {
+						if lb, isb := buf.(*ssa.UnOp); isb && lb.Op == token.MUL && la.X == lb.X {
+							same = true // another load of the same buffer variable
+						}
+					}
+					if same && k < len(h.Params) {
+						prm = h.Params[k]
+					}
+				}
+				if prm == nil || len(Sites(h, func(x ssa.Instruction) bool { _, isgo := x.(*ssa.Go); return isgo })) == 0 {
+					return false
+				}
+				for _, b := range h.Blocks {
+					if ret, isr := b.Instrs[len(b.Instrs)-1].(*ssa.Return); isr {
+						for _, rv := range ret.Results {
+							if DependsOn(rv, func(v ssa.Value) bool { return v == ssa.Value(prm) }) {
+								return false // hands the abandoned buffer back
+							}
+						}
+					}
+				}
+				return true
+			}
+			gos := Sites(fn, isAbandon)
 			okAll, n := buf != nil && len(gos) >= 1, 0
 			EnumBlockPaths(fn, 50000, func(path []*ssa.BasicBlock) {
 				abandon := false
@@ -299,7 +356,7 @@ func runC01(r *Report) {
 							if a2 == al {
 								goPos := -1
 								for i, in := range seq {
-									if _, isgo := in.(*ssa.Go); isgo {
+									if isAbandon(in) {
 										goPos = i
 									}
 								}
@@ -334,7 +391,16 @@ func runC01(r *Report) {
 			})
 			r.Ob("R01e", fn, "abandoned-batch-buffer-not-returned", fn.Pos(), okAll && n >= 1, "when a batch is abandoned its result buffer stays with the drain goroutine (the reader may still write late replies into it); the caller must get a fresh buffer")
 			// and the drain goroutine recycles that buffer only after the completion receive
+			// the go statements themselves: in DoMulti, or in the abandon helper it calls
+			var goSites []Site
 			for _, g := range gos {
+				if _, isgo := g.Instr.(*ssa.Go); isgo {
+					goSites = append(goSites, g)
+				} else if c, isc := g.Instr.(*ssa.Call); isc && c.Call.StaticCallee() != nil {
+					goSites = append(goSites, Sites(c.Call.StaticCallee(), func(x ssa.Instruction) bool { _, isgo := x.(*ssa.Go); return isgo })...)
+				}
+			}
+			for _, g := range goSites {
 				goi := g.Instr.(*ssa.Go)
 				var cl *ssa.Function
 				if mc, ok := goi.Call.Value.(*ssa.MakeClosure); ok {
